@@ -27,7 +27,7 @@ THEOREMS = [
 ]
 # the rule bodies translated from /repo/vakt/rules/*.py in this run (harness/pytolean.py -> lean/Gen/Rules.lean) are the
 # model's rules: one theorem per translated rule (lean/Gen/Equiv.lean), built as a separate target
-EXTRA_BUILD = ['Gen']
+EXTRA_BUILD = ['+Gen.Equiv']
 GEN_IMPORTS = ['Gen.Equiv']
 GEN_THEOREMS = ['Vakt.GenEquiv.gen_' + n for n in (
     'Eq', 'NotEq', 'Greater', 'Less', 'GreaterOrEqual', 'LessOrEqual', 'In', 'NotIn', 'AllIn', 'AllNotIn', 'AnyIn', 'AnyNotIn',
